@@ -33,8 +33,9 @@
 (*                                                                         *)
 (* Narrow readings (the property text is silent): names do not start with  *)
 (* '!' (Chemkin's comment character; such a record is a comment by the     *)
-(* format's own rule); element counts are integers; symbols are one upper  *)
-(* case letter optionally followed by one letter.                          *)
+(* format's own rule); element counts are integers; symbols are one or two *)
+(* letters in any capitalisation (Pt, PT, pt, H, h): the writer accepts    *)
+(* any dictionary key and upper-case symbols are the usual Chemkin form.   *)
 (*                                                                         *)
 (* IMPLEMENTATION-SHAPED VARIANTS (named, never used for verdicts on the   *)
 (* code): classifier "substring" = the pinned reader ('THERMO' in line,    *)
@@ -159,8 +160,9 @@ NameOf(line) == TakeWord(Cols(line, 1, 16))
 SlotAt(line, k) == Cols(line, 20 + 5 * k, 24 + 5 * k)        \* k = 1..4 : 25-29 ... 40-44
 SlotSym(sl) == Trim(SubSeq(sl, 1, 2))
 SlotCountText(sl) == LTrim(SubSeq(sl, 3, 5))
-SlotOK(sl) == /\ Len(sl) = 5 /\ IsUpperC(sl[1])
-              /\ (sl[2] = SP \/ IsLowerC(sl[2]) \/ IsUpperC(sl[2]))
+IsLetterC(c) == IsUpperC(c) \/ IsLowerC(c)
+SlotOK(sl) == /\ Len(sl) = 5 /\ IsLetterC(sl[1])
+              /\ (sl[2] = SP \/ IsLetterC(sl[2]))
               /\ AllDigits(SlotCountText(sl)) /\ SlotCountText(sl)[1] # 48
 SlotElem(sl) == <<SlotSym(sl), IF SlotOK(sl) THEN DigitsToInt(SlotCountText(sl)) ELSE -1>>
 RECURSIVE ElemsFrom(_, _)
